@@ -459,3 +459,7 @@ Definition c11_check_schema (c : schema_case) : bool :=
   let '(ids, cols, fs, back) := c in
   result_eqb (list_eqb afield_eqb) (orso_to_arrow_schema ids cols) fs
   && match fs with Ok l => result_eqb (list_eqb column_eqb) (arrow_to_orso_schema l) back | Raise _ => true end.
+
+Definition batch_case : Type := list (list cell) * list (list (list cell)).
+Definition o2a_case : Type := column * result afield * result column.
+Definition a2o_case : Type := bool * afield * result column.
